@@ -137,6 +137,36 @@ def liveMonTold (flips : Nat) (final : Nat) : Option Nat :=
   let s2 := Monitor.run s1 (List.replicate 8 .mon)
   if Monitor.blocked s2 then s2.told else none
 
+/-- the monitor model run over the history of the `livemon park=1` scenario: the monitor reports READY
+    (1) and is stopped in front of WaitForStateChange; the pool goes down, an update reports the pools'
+    states, the pool comes back; the monitor continues until it blocks. -/
+def liveMonParkTold : Option Nat :=
+  let hist : List Monitor.Step := [.mon, .env 0, .mon, .mon, .env 1, .mon, .mon, .env 0, .sync, .env 1]
+  let s1 := Monitor.run (Monitor.init 1) hist
+  let s2 := Monitor.run s1 (List.replicate 8 .mon)
+  if Monitor.blocked s2 then s2.told else none
+
+/-- the model run over the `liveorder` scenario: three pools READY and known READY; three updates each add
+    a MultiEndpoint with a switching delay over them, in different priority orders. Returns the current
+    endpoint of each new MultiEndpoint right after its update. -/
+def liveOrderCurs : List String :=
+  let lives := ["live1", "live2", "live3"]
+  let o1 : Opts := [("main", some ["live1"])]
+  let s1 := (update init "main" o1 [] (fun _ => false)).1
+  let s1 := notifyAll s1 "live1" true
+  let o2 : Opts := o1 ++ [("warm", some lives)]
+  let s2 := (update s1 "main" o2 [] (fun e => e == "live1")).1
+  let s2 := notifyAll (notifyAll s2 "live2" true) "live3" true
+  let orders : List (List String) := [["live2", "live3", "live1"], ["live3", "live1", "live2"], ["live1", "live2", "live3"]]
+  let hour : Int := 3600000000000
+  let (_, _, curs) := ((List.range 3).zip orders).foldl (fun (acc : St × Opts × List String) (io : Nat × List String) =>
+      let (s, o, curs) := acc
+      let name := s!"new{io.1 + 1}"
+      let o' := o ++ [(name, some io.2)]
+      let s' := (update s "main" o' [] (fun e => lives.contains e) hour).1
+      (s', o', curs ++ [((findME s' name).map (·.current)).getD "?"])) (s2, o2, [])
+  curs
+
 def handle (sess : Sess) (rep : Report) (ln : Nat) (toks : List String) (obs : String) : Sess × Report :=
   let a := args toks.tail
   let op := toks.headD ""
@@ -190,13 +220,35 @@ def handle (sess : Sess) (rep : Report) (ln : Nat) (toks : List String) (obs : S
       (sess, if obs == "PANIC" then rep else if obs == "HANG" then fail rep ln "C15" "update_returns" else rep.bump "gme.livemon_inconclusive")
     else
       let fl := (arg a "flips").toNat?.getD 0
-      let rep := rep.bump s!"gme.livemon_flips_{fl}_{final}"
-      let mine := match liveMonTold fl (if final == "READY" then 1 else 0) with
+      let park := arg a "park" == "1"
+      let rep := rep.bump (if park then s!"gme.livemon_monitor_stopped_before_wait_{final}" else s!"gme.livemon_flips_{fl}_{final}")
+      let mine := match (if park then liveMonParkTold else liveMonTold fl (if final == "READY" then 1 else 0)) with
         | some 1 => "told=A"
         | some _ => "told=U"
         | none => "told=?"
+      -- the observation: told=<A|U> stale=<reports that contradicted the pool's state when they were made> reports=<n>
+      let o := args (obs.splitOn " ")
+      let toldObs := "told=" ++ arg o "told"
       -- monitor (theorem blocked_means_told): once quiet, the MultiEndpoints were told the current state
-      let rep := if obs != (if final == "READY" then "told=A" else "told=U") then fail rep ln "C15" "blocked_means_told" else rep
+      let rep := if toldObs != (if final == "READY" then "told=A" else "told=U") then fail rep ln "C15" "blocked_means_told" else rep
+      -- monitor (theorem report_is_current): no report said the opposite of the pool's state at that moment
+      let rep := if arg o "stale" != "0" then fail rep ln "C15" "report_is_current" else rep
+      let rep := if (arg o "reports").toNat?.getD 0 ≥ 3 then rep.bump "gme.livemon_three_or_more_reports" else rep
+      let mine := mine ++ " stale=0"
+      let obs := toldObs ++ " stale=" ++ arg o "stale"
+      if mine == obs then (sess, rep) else ({ sess with model := none }, { rep.msg s!"DIVERGE line={ln} model={mine} impl={obs}" with diverged := rep.diverged + 1 })
+  | "liveorder" =>
+    -- self-contained, like livemon: pools with real connectivity
+    let sess := { sess with model := none, lastImpl := "", ready := [] }
+    let rep := { rep with episodes := rep.episodes + 1 }
+    if arg a "final" != "ok" then
+      (sess, if obs == "PANIC" then rep else rep.bump "gme.liveorder_inconclusive")
+    else
+      let rep := rep.bump "gme.multiendpoint_with_delay_added_over_ready_pools"
+      let mine := "cur=" ++ ",".intercalate liveOrderCurs
+      -- monitor (C15, "already reflects the connectivity of the kept pools when the call returns"): a new MultiEndpoint
+      -- whose endpoints' pools are all READY routes to the first endpoint of its list
+      let rep := if obs != "cur=live2,live3,live1" then fail rep ln "C15" "new_multiendpoint_routes_to_top_ready" else rep
       if mine == obs then (sess, rep) else ({ sess with model := none }, { rep.msg s!"DIVERGE line={ln} model={mine} impl={obs}" with diverged := rep.diverged + 1 })
   | "new" | "upd" =>
     let rep := if op == "new" then { rep with episodes := rep.episodes + 1 } else rep
@@ -204,15 +256,9 @@ def handle (sess : Sess) (rep : Report) (ln : Nat) (toks : List String) (obs : S
     match base with
     | none => (sess, rep.bump "gme.skipped_after_divergence")
     | some s =>
-      -- the order in which the final status update walks the pool map is not observable: accept the
-      -- implementation's answer if some order explains it (theorems quantify over all orders)
-      let run (order : List String) := update s (arg a "default") (parseOpts (arg a "opts")) (plusList (arg a "fail")) (fun _ => false) order
-      let (s0, _) := run []
-      let cands := (perms (s0.pools.mergeSort (· ≤ ·))).map run
-      let (s', ok) := match cands.find? (fun r => (if r.2 then "ok" else "err") ++ " ; " ++ digest r.1 r.1.pools.length == obs) with
-        | some r => r
-        | none => run []
-      let rep := if (cands.map fun r => digest r.1 0).eraseDups.length > 1 then rep.bump "gme.sync_order_matters" else rep
+      -- the final status update tells every MultiEndpoint about its own endpoints in list order (F34): the
+      -- outcome is a function of the options and the state
+      let (s', ok) := update s (arg a "default") (parseOpts (arg a "opts")) (plusList (arg a "fail")) (fun _ => false)
       let rep := if ok && op == "upd" then rep.bump "gme.update_accepted" else rep
       let rep := if ok && s.pools.any (fun e => !s'.pools.contains e) then rep.bump "gme.pool_closed_by_update" else rep
       let rep := if ok && s.alive && s.pools.any (fun e => s'.pools.contains e) then rep.bump "gme.pool_kept" else rep
